@@ -323,6 +323,12 @@ class CallMixin:
                 lo = max(los) if los else None
                 hi = None if any(b[1] is None for b in bs) else max(b[1] for b in bs)
             return st, AVal(kind="float" if fl else "int", lo=lo, hi=hi, taint=taint)
+        if name == "pow" and len(args) == 2 and not e.keywords:
+            st, a = self.ev(st, args[0])
+            st, b = self.ev(st, args[1])
+            self.pow_ob(st, e, a, b)
+            fl = a.kind == "float" or b.kind == "float"
+            return st, AVal(kind="float" if fl else "int", taint=a.taint or b.taint)
         if name == "abs" and len(args) == 1:
             st, v = self.ev(st, args[0])
             if v.maybe_none:
